@@ -1,12 +1,13 @@
 #include "slu_mt_@p@defs.h"
 #include "wf.h"
 #include "defs.h"
-/* ghosts: ghost segment, ghost indices for the frame, kernel call records */
-int_t g_s, g_b, g_t, g_x, g_c, g_p, g_l, g_q; struct kern_rec g_k;
+/* ghosts: ghost segment g_s, ghost busy column g_v, ghost element (column g_c, row g_x) of the m-by-w arrays, segrep position g_q, tempv
+ * index g_t; kernel call records; the busy phase's own log */
+int_t g_s, g_v, g_x, g_c, g_q, g_t; struct kern_rec g_k;
 int_t g_next_busy, g_busy_krep[M], g_is_busy_krep[M];      /* climb position expected next; representatives appended by the busy phase */
-int g_await_bad;
-/* pre-state copies (ghost index per array) */
-@T@ g_lu0; int_t g_lsub0, g_idx0[8], g_repfnz0[M*W], g_segrep0, g_wend0[W], g_mark0, g_plsub0;
+int_t g_onch[M];                                           /* ghost table bound by [ghost_chain] */
+/* pre-state copies (bound by [ghost_segment], [ghost_copy]) */
+int_t g_sd_krep, g_sd_kf, g_sd_nsupr, g_rep0, g_mark0, g_plsub0, g_wend0, g_segrep0, g_spin0;
 /* inputs */
 int_t in_pnum, in_m, in_w, in_jcol, in_bcol, in_nseg, in_nseg0, in_rowblk, in_colblk, in_maxsuper, in_tvlen;
 int_t in_inv_perm_r[M], in_etree[M], in_segrep[M], in_repfnz[M*W], in_panel_lsub[M*W], in_w_lsub_end[W], in_spa_marker[M*W]; @T@ in_dense[M*W], in_tempv[TVC];
@@ -14,7 +15,7 @@ pxgstrf_shared_t in_sh; GlobalLU_t in_Glu; Gstat_t in_Gstat; procstat_t in_procs
 int_t in_xsup[M+1], in_xsup_end[M+1], in_supno[M+1], in_xlsub[M+1], in_xlsub_end[M], in_xlusup[M+1], in_lsub[LC]; @T@ in_lusup[LUC];
 @T@ nondet_@T@(void); float nondet_float(void);
 #define REP8(X) X(0) X(1) X(2) X(3) X(4) X(5) X(6) X(7)
-_Static_assert(W <= 8 && M <= 8, "REP8 covers every extent");
+_Static_assert(W <= 8 && M <= 8, "REP8 / CNT cover every extent");
 
 /* tuning parameters: rowblk (4), colblk (5) -- symbolic */
 int_t sp_ienv(int_t ispec) {
@@ -25,9 +26,9 @@ int_t sp_ienv(int_t ispec) {
  * range [bcol, jcol), the flag is set (the caller tests it first: never waits on a finished column); on return the flag is clear. */
 int_t await(volatile int_t *status) {
   long c = status - in_spin;
-  g_k.awaits++;
   __CPROVER_assert(__CPROVER_POINTER_OBJECT(status) == __CPROVER_POINTER_OBJECT(in_spin) && in_bcol <= c && c < in_jcol, "await: waits for a column of the busy range [bcol, jcol)");
   __CPROVER_assert(*status != 0, "await: only called for a column that is still busy");
+  if (g_k.awaits < 3) g_k.awaits++;            /* saturating: 0, 1, 2, "3 or more" */
   *status = 0;
   return 0;
 }
@@ -45,27 +46,25 @@ static int_t lead_of(int_t cc, int_t fsupc, int_t krep) {
 static void kernel(int kind, const int_t pnum, const int_t m, const int_t w, const int_t jcol, const int_t fsupc, const int_t krep,
                    const int_t nsupc, int_t nsupr, int_t nrow, int_t *repfnz, int_t *panel_lsub, int_t *w_lsub_end, int_t *spa_marker,
                    @T@ *dense, @T@ *tempv, GlobalLU_t *Glu, Gstat_t *Gstat) {
-  int segs_ok = 1;
   __CPROVER_assert(pnum == in_pnum && m == in_m && w == in_w && jcol == in_jcol, "kernel: pnum, m, w, jcol passed through");
-  __CPROVER_assert(repfnz == in_repfnz && panel_lsub == in_panel_lsub && w_lsub_end == in_w_lsub_end && spa_marker == in_spa_marker && dense == in_dense && tempv == in_tempv && Glu == &in_Glu && Gstat == &in_Gstat, "kernel: the panel's work arrays, Glu and Gstat passed through");
+  __CPROVER_assert(repfnz == in_repfnz && panel_lsub == in_panel_lsub && w_lsub_end == in_w_lsub_end && spa_marker == in_spa_marker && dense == in_dense && tempv == in_tempv && Glu == &in_Glu && Gstat == &in_Gstat, "kernel: the panel's work arrays (column 0, stride m), Glu and Gstat passed through");
   if (g_k.calls < in_nseg0) {          /* phase 1: the segments found by the panel DFS */
     __CPROVER_assert(krep == KREP(g_k.calls), "kernel: segments in topological order (reverse of segrep[]), none skipped, none twice");
     __CPROVER_assert(0 <= krep && krep < in_m && fsupc == in_xsup[in_supno[krep]], "kernel: fsupc = first column of krep's supernode");
-    __CPROVER_assert(g_k.awaits == 0, "kernel: no waiting before the finished supernodes are applied");
+    __CPROVER_assert(g_k.awaits == 0 && in_nseg == in_nseg0, "kernel: no waiting, nothing appended before the finished supernodes are applied");
   } else {                             /* phase 2: busy supernodes on the etree path bcol -> jcol, bottom up */
-    int_t c = fsupc, t = g_k.calls - in_nseg0, lead_ok = 1, chain_ok = 1, stop = 0;
+    int_t t = g_k.calls - in_nseg0;
     __CPROVER_assert(in_bcol < in_jcol && fsupc == g_next_busy && in_bcol <= fsupc && fsupc < in_jcol, "kernel(busy): starts where the climb stands (bcol, then the parent of the previous representative)");
     __CPROVER_assert(krep == in_xsup_end[in_supno[fsupc]] - 1 && fsupc <= krep && krep < in_jcol, "kernel(busy): krep = current last column of the busy supernode");
-    /* every column on the etree chain from fsupc inside the supernode has been waited for (flag clear) -- recomputed here independently */
-#define CHAIN(i) if (!stop) { if (in_spin[c] != 0) chain_ok = 0; if (in_etree[c] >= in_jcol || in_supno[in_etree[c]] != in_supno[fsupc]) stop = 1; else c = in_etree[c]; }
-    REP8(CHAIN)
-    __CPROVER_assert(chain_ok, "kernel(busy): every column of the supernode on the etree chain from fsupc is finished (spin flag clear) when the kernel is called");
-    __CPROVER_assert(in_nseg == in_nseg0 + t + 1 && in_segrep[in_nseg0 + t] == krep, "kernel(busy): the representative was appended to segrep[], nseg counts it");
-    /* repfnz[krep] of every panel column: unchanged, or the first column of fsupc..krep whose pivot row holds a nonzero of dense[] */
-#define LEAD(cc) if ((cc) < W && (cc) < in_w) { int_t v = in_repfnz[(cc)*in_m + krep], f = lead_of((cc), fsupc, krep); \
-      if (f >= 0 ? v != f : v != g_repfnz0[(cc)*in_m + krep]) lead_ok = 0; }
-    REP8(LEAD)
-    __CPROVER_assert(lead_ok, "kernel(busy): repfnz_col[krep] = leading nonzero of the busy U-segment in dense_col (else untouched)");
+    /* every column of the supernode on the etree chain from fsupc has been waited for (pointwise at the ghost column g_v) */
+    __CPROVER_assert(!(fsupc <= g_v && g_v <= krep && g_onch[g_v] == 1) || in_spin[g_v] == 0, "kernel(busy): every column of the supernode on the etree chain from fsupc is finished (spin flag clear) when the kernel is called");
+    __CPROVER_assert(0 <= t && t < M && in_nseg == in_nseg0 + t + 1 && in_segrep[in_nseg0 + t] == krep, "kernel(busy): the representative was appended to segrep[], nseg counts it");
+    /* repfnz[krep] of panel column g_c: unchanged, or the first column of fsupc..krep whose pivot row holds a nonzero of dense[] (pointwise: krep == g_x) */
+    if (krep == g_x) {
+      int_t f = lead_of(g_c, fsupc, krep);
+      __CPROVER_assert(RF(g_c, krep) == (f >= 0 ? f : g_rep0), "kernel(busy): repfnz_col[krep] = leading nonzero of the busy U-segment in dense_col (else untouched)");
+    }
+    __CPROVER_assert(g_is_busy_krep[krep] == 0, "kernel(busy): a busy supernode is applied once");
     g_busy_krep[t] = krep; g_is_busy_krep[krep] = 1; g_next_busy = in_etree[krep];
   }
   __CPROVER_assert(0 <= fsupc && fsupc <= krep && nsupc == krep - fsupc + 1, "kernel [snode]: 0 <= fsupc <= krep < m, nsupc = krep - fsupc + 1");
@@ -74,12 +73,10 @@ static void kernel(int kind, const int_t pnum, const int_t m, const int_t w, con
   __CPROVER_assert(0 <= in_xlsub[fsupc] && in_xlsub[fsupc] <= in_Glu.nzlmax - nsupr, "kernel [geometry]: row list inside lsub");
   __CPROVER_assert(0 <= in_xlusup[fsupc] && nsupr*nsupc <= in_Glu.nzlumax - in_xlusup[fsupc], "kernel [geometry]: nsupr x nsupc block inside lusup");
   __CPROVER_assert(FA(ka, LC, INLIST_AT(fsupc, ka) ==> (0 <= in_lsub[ka] && in_lsub[ka] < in_m)), "kernel [rows_in_range]");
-  /* pointwise: checked at the call for the ghost segment g_s / the ghost busy supernode starting at g_b (both arbitrary) */
-  if (g_k.calls < in_nseg0 ? g_k.calls == g_s : fsupc == g_b)
+  /* pointwise: checked at the call for the ghost segment g_s / the ghost busy supernode starting at g_v (both arbitrary) */
+  if (g_k.calls < in_nseg0 ? g_k.calls == g_s : fsupc == g_v)
     __CPROVER_assert(FA(kb, LC, FA(kc, LC, (INLIST_AT(fsupc, kb) && kb < kc && INLIST_AT(fsupc, kc)) ==> in_lsub[kb] != in_lsub[kc])), "kernel [rows_distinct]");
-#define SEG_OK(c) if ((c) < W && (c) < in_w && !(in_repfnz[(c)*in_m + krep] == EMPTY || (fsupc <= in_repfnz[(c)*in_m + krep] && in_repfnz[(c)*in_m + krep] <= krep))) segs_ok = 0;
-  REP8(SEG_OK)
-  __CPROVER_assert(segs_ok, "kernel [segments]: every repfnz_col[krep] is EMPTY or a column of the supernode");
+  __CPROVER_assert(FA(kd, W, kd < in_w ==> (RF(kd, krep) == EMPTY || (fsupc <= RF(kd, krep) && RF(kd, krep) <= krep))), "kernel [segments]: every repfnz_col[krep] is EMPTY or a column of the supernode");
   __CPROVER_assert((kind == 2) == WANT2D(nsupc, nrow), "kernel choice: 2-D iff nsupc >= colblk and nrow >= rowblk");
   if (kind == 2) __CPROVER_assert(nsupc <= in_maxsuper && 1 <= in_rowblk && in_w*(in_maxsuper + in_rowblk) <= in_tvlen, "kernel(2-D) [blocking]: nsupc <= maxsuper, tempv holds w slots of maxsuper + rowblk");
   else __CPROVER_assert(nsupr <= in_tvlen, "kernel(1-D) [tempv_size]: tempv holds nsupr scalars");
@@ -101,117 +98,32 @@ void p@p@gstrf_bmod2D(const int_t pnum, const int_t m, const int_t w, const int_
   kernel(2, pnum, m, w, jcol, fsupc, krep, nsupc, nsupr, nrow, repfnz, panel_lsub, w_lsub_end, spa_marker, dense, tempv, Glu, Gstat);
 }
 
-int_t nondet_int_t(void);
-#define REQ(label, c) __CPROVER_assume(c)
-#define ENS(label, c) __CPROVER_assert(c, "ensures " #label)
-#define BUSY(c)  (in_bcol <= (c) && (c) < in_jcol)
-#define SLAST(c) (in_xsup_end[in_supno[c]] - 1)                 /* current last column of c's (busy) supernode */
-#define ISFIRST(c) (in_xsup[in_supno[c]] == (c))
-/* number of rows of panel column cc that carry its marker (= entries its panel_lsub list must hold) */
-static int_t cnt_marked(int_t cc) {
-  int_t n = 0;
-#define MARKED(r) if ((r) < M && (r) < in_m && in_spa_marker[cc*in_m + (r)] == in_jcol + cc) n++;
-  REP8(MARKED)
-  return n;
-}
-/* BOUNDED unit (label B(n)): loop 3 of p?gstrf_panel_bmod is a do-while, for which CBMC has no loop contracts (legacy instrumentation then
- * refuses the function; DFCC with a contract on loop 1 only ran out of memory), and loop 4 advances cursor pointers.  The real routine is
- * executed symbolically with ALL SIX loops unwound (unwinding assertions) for every input within the capacities.
- * REQ = requires (assumed), ENS = ensures (asserted); the callee preconditions are asserted inside the kernel stubs. */
+/* The harness only wires the pointers and calls the real routine; every input / ghost is a nondeterministic static constrained by the
+ * requires clauses of units/panel_bmod/spec. */
 void h_panel_bmod(void) {
-  int_t nb, i;
-  /* ---------- inputs: nondeterministic ---------- */
-  in_pnum = nondet_int_t(); in_m = nondet_int_t(); in_w = nondet_int_t(); in_jcol = nondet_int_t(); in_bcol = nondet_int_t(); in_nseg = nondet_int_t();
-  in_rowblk = nondet_int_t(); in_colblk = nondet_int_t(); in_maxsuper = nondet_int_t(); in_tvlen = nondet_int_t();
-  g_s = nondet_int_t(); g_b = nondet_int_t(); g_t = nondet_int_t(); g_x = nondet_int_t(); g_c = nondet_int_t(); g_p = nondet_int_t(); g_l = nondet_int_t(); g_q = nondet_int_t();
-  __CPROVER_havoc_object(in_inv_perm_r); __CPROVER_havoc_object(in_etree); __CPROVER_havoc_object(in_segrep); __CPROVER_havoc_object(in_repfnz);
-  __CPROVER_havoc_object(in_panel_lsub); __CPROVER_havoc_object(in_w_lsub_end); __CPROVER_havoc_object(in_spa_marker); __CPROVER_havoc_object(in_dense);
-  __CPROVER_havoc_object(in_tempv); __CPROVER_havoc_object(in_procstat); __CPROVER_havoc_object((void *)in_spin); __CPROVER_havoc_object(in_xsup);
-  __CPROVER_havoc_object(in_xsup_end); __CPROVER_havoc_object(in_supno); __CPROVER_havoc_object(in_xlsub); __CPROVER_havoc_object(in_xlsub_end);
-  __CPROVER_havoc_object(in_xlusup); __CPROVER_havoc_object(in_lsub); __CPROVER_havoc_object(in_lusup); __CPROVER_havoc_object(g_repfnz0);
-  in_Glu.nzlmax = nondet_int_t(); in_Glu.nzlumax = nondet_int_t();
+  int_t nb;
   in_sh.Glu = &in_Glu; in_sh.Gstat = &in_Gstat; in_sh.spin_locks = in_spin; in_Gstat.procstat = in_procstat;
   in_Glu.xsup = in_xsup; in_Glu.xsup_end = in_xsup_end; in_Glu.supno = in_supno; in_Glu.lsub = in_lsub; in_Glu.xlsub = in_xlsub;
   in_Glu.xlsub_end = in_xlsub_end; in_Glu.lusup = in_lusup; in_Glu.xlusup = in_xlusup;
-  in_nseg0 = in_nseg; g_next_busy = in_bcol;
-  /* ---------- requires ---------- */
-  REQ(args, 0 <= in_pnum && in_pnum < NP && 1 <= in_m && in_m <= M && 1 <= in_w && in_w <= W && 0 <= in_jcol && in_jcol <= in_m - in_w && 0 <= in_bcol && in_bcol <= M);
-  REQ(ghost_ranges, 0 <= g_s && g_s < M && 0 <= g_b && g_b < M);
-  REQ(bounded, 0 <= in_nseg0 && in_nseg0 <= NSEGC && in_jcol - in_bcol <= NBUSY);
-  REQ(segrep_capacity, in_bcol >= in_jcol || in_nseg0 + (in_jcol - in_bcol) <= in_m);
-  REQ(storage, 0 <= in_Glu.nzlmax && in_Glu.nzlmax <= LC && 0 <= in_Glu.nzlumax && in_Glu.nzlumax <= LUC);
-  /* --- the segments found by the panel DFS (finished supernodes before the panel) */
-  REQ(segments, FA(q1, M, q1 < in_nseg0 ==> (0 <= KREP(q1) && KREP(q1) < in_jcol && 0 <= in_supno[KREP(q1)] && in_supno[KREP(q1)] < in_m && 0 <= KF(q1) && KF(q1) <= KREP(q1))));
-  REQ(row_lists, FA(q2, M, q2 < in_nseg0 ==> (0 <= in_xlsub[KF(q2)] && in_xlsub[KF(q2)] <= in_xlsub_end[KF(q2)] && in_xlsub_end[KF(q2)] <= in_Glu.nzlmax)));
-#if !SHORT
-  REQ(rows_cover_columns, FA(q7, M, q7 < in_nseg0 ==> NSUPC(q7) <= NSUPR(q7)));
-#else
-  REQ(fewer_rows_than_columns, in_nseg0 >= 1 && NSUPC(0) > NSUPR(0));      /* exhibit: structurally singular input, see MUTANTS.md */
-#endif
-  REQ(rows_in_range, FA(p1, LC, 0 <= in_lsub[p1] && in_lsub[p1] < in_m));
-  REQ(rows_distinct, g_s >= in_nseg0 || FA(p2, LC, FA(p3, LC, (INLIST_AT(KF(g_s), p2) && p2 < p3 && INLIST_AT(KF(g_s), p3)) ==> in_lsub[p2] != in_lsub[p3])));   /* pointwise at g_s */
-  REQ(value_blocks, FA(q4, M, q4 < in_nseg0 ==> (0 <= in_xlusup[KF(q4)] && in_xlusup[KF(q4)] <= LUC && NSUPR(q4)*NSUPC(q4) <= in_Glu.nzlumax - in_xlusup[KF(q4)])));
-  REQ(repfnz_wf, FA(q5, M, FA(c1, W, (q5 < in_nseg0 && c1 < in_w) ==> (in_repfnz[c1*in_m + KREP(q5)] == EMPTY || (KF(q5) <= in_repfnz[c1*in_m + KREP(q5)] && in_repfnz[c1*in_m + KREP(q5)] <= KREP(q5))))));
-  REQ(blocking, 1 <= in_rowblk && in_rowblk <= TVC && 1 <= in_colblk && 1 <= in_maxsuper && in_maxsuper <= TVC && 0 <= in_tvlen && in_tvlen <= TVC && 2*in_m <= in_tvlen && in_w*(in_maxsuper + in_rowblk) <= in_tvlen && FA(q6, M, q6 < in_nseg0 ==> NSUPC(q6) <= in_maxsuper));
-  REQ(tempv_zero_on_entry, FA(t1, TVC, in_tempv[t1] == 0.0));
-  /* --- the busy supernodes on the etree path bcol -> jcol */
-  REQ(etree, FA(e1, M, e1 < in_m ==> (e1 < in_etree[e1] && in_etree[e1] <= in_m)));
-  REQ(busy_supernodes, FA(b1, M, BUSY(b1) ==> (0 <= in_supno[b1] && in_supno[b1] < in_m && 0 <= in_xsup[in_supno[b1]] && in_xsup[in_supno[b1]] <= b1 && b1 <= SLAST(b1) && SLAST(b1) < in_jcol)));
-  REQ(busy_contiguous, FA(b2, M, FA(b3, M, (BUSY(b2) && in_xsup[in_supno[b2]] <= b3 && b3 <= SLAST(b2)) ==> in_supno[b3] == in_supno[b2])));
-  /* the climb lands on first columns: bcol starts a supernode, and so does the parent of a busy supernode's last column */
-  REQ(climb_hits_first_columns, (in_bcol < in_jcol ==> ISFIRST(in_bcol)) && FA(b4, M, (BUSY(b4) && in_etree[SLAST(b4)] < in_jcol) ==> ISFIRST(in_etree[SLAST(b4)])));
-  REQ(busy_pivot_rows, FA(b5, M, BUSY(b5) ==> (0 <= in_inv_perm_r[b5] && in_inv_perm_r[b5] < in_m)));
-  REQ(busy_lists, FA(b6, M, BUSY(b6) ==> (0 <= in_xlsub[b6] && in_xlsub[b6] <= in_xlsub_end[b6] && in_xlsub_end[b6] <= in_Glu.nzlmax && in_xlsub_end[b6] - in_xlsub[b6] <= LKC && (ISFIRST(b6) ==> (SLAST(b6) - b6 + 1 <= NSUPR_AT(b6) && SLAST(b6) - b6 + 1 <= in_maxsuper && 0 <= in_xlusup[b6] && in_xlusup[b6] <= LUC && NSUPR_AT(b6)*(SLAST(b6) - b6 + 1) <= in_Glu.nzlumax - in_xlusup[b6])))));
-  REQ(busy_rows_distinct, !(BUSY(g_b) && ISFIRST(g_b)) || FA(p4, LC, FA(p5, LC, (INLIST_AT(g_b, p4) && p4 < p5 && INLIST_AT(g_b, p5)) ==> in_lsub[p4] != in_lsub[p5])));   /* pointwise at g_b */
-  REQ(busy_repfnz, FA(b8, M, FA(c2, W, (BUSY(b8) && c2 < in_w) ==> (in_repfnz[c2*in_m + b8] == EMPTY || (in_xsup[in_supno[b8]] <= in_repfnz[c2*in_m + b8] && in_repfnz[c2*in_m + b8] <= b8)))));
-  /* the n-by-w marker / list pair is consistent: panel_lsub[*,c] holds one entry per row that carries column c's marker */
-  REQ(markers, in_w_lsub_end[0] == cnt_marked(0) && (in_w < 2 || in_w_lsub_end[1] == cnt_marked(1)));
-  REQ(ghosts, 0 <= g_s && g_s < M && 0 <= g_b && g_b < M && 0 <= g_t && g_t < TVC && 0 <= g_x && g_x < in_m && 0 <= g_c && g_c < in_w && 0 <= g_p && g_p < LUC && 0 <= g_l && g_l < LC && 0 <= g_q && g_q < in_m);
-  REQ(ghost_copy, FA(r1, M*W, g_repfnz0[r1] == in_repfnz[r1]) && in_lusup[g_p] == in_lusup[g_p]);
-  g_lu0 = in_lusup[g_p]; g_lsub0 = in_lsub[g_l]; g_segrep0 = in_segrep[g_q]; g_wend0[0] = in_w_lsub_end[0]; g_wend0[W-1] = in_w_lsub_end[W-1];
-  g_mark0 = in_spa_marker[g_c*in_m + g_x]; g_plsub0 = in_panel_lsub[g_c*in_m + g_x];
-  g_idx0[0] = in_xsup[g_x]; g_idx0[1] = in_xsup_end[g_x]; g_idx0[2] = in_supno[g_x]; g_idx0[3] = in_xlsub[g_x]; g_idx0[4] = in_xlsub_end[g_x];
-  g_idx0[5] = in_xlusup[g_x]; g_idx0[6] = in_etree[g_x]; g_idx0[7] = in_inv_perm_r[g_x];
 
   p@p@gstrf_panel_bmod(in_pnum, in_m, in_w, in_jcol, in_bcol, in_inv_perm_r, in_etree, &in_nseg, in_segrep, in_repfnz, in_panel_lsub,
                      in_w_lsub_end, in_spa_marker, in_dense, in_tempv, &in_sh);
 
-  /* ---------- ensures ---------- */
   nb = in_nseg - in_nseg0;                 /* representatives appended by the busy phase */
-  ENS(every_segment_updated_once, g_k.calls == in_nseg0 + nb && g_k.calls1d + g_k.calls2d == g_k.calls && nb >= 0);
-  ENS(no_busy_supernode_nothing_else, in_bcol < in_jcol || (nb == 0 && g_k.awaits == 0));
-  ENS(climb_complete, in_bcol >= in_jcol || (nb >= 1 && g_next_busy >= in_jcol));
-  ENS(kernel_of_segment, g_s >= in_nseg0 || (g_k.krep_s == KREP(g_s) && g_k.fsupc_s == KF(g_s) && g_k.nsupc_s == NSUPC(g_s) && g_k.nsupr_s == NSUPR(g_s) && g_k.nrow_s == NROW(g_s) && g_k.kind_s == (WANT2D(NSUPC(g_s), NROW(g_s)) ? 2 : 1)));
-  /* frame */
-  ENS(frame_L, in_lusup[g_p] == g_lu0 && in_lsub[g_l] == g_lsub0 && in_xsup[g_x] == g_idx0[0] && in_xsup_end[g_x] == g_idx0[1] && in_supno[g_x] == g_idx0[2] && in_xlsub[g_x] == g_idx0[3] && in_xlsub_end[g_x] == g_idx0[4] && in_xlusup[g_x] == g_idx0[5]);
-  ENS(frame_etree_perm, in_etree[g_x] == g_idx0[6] && in_inv_perm_r[g_x] == g_idx0[7]);
-  ENS(frame_tempv, in_tempv[g_t] == 0.0);
-  ENS(frame_segrep_prefix, g_q >= in_nseg0 || in_segrep[g_q] == g_segrep0);
-  ENS(segrep_appended, !(in_nseg0 <= g_q && g_q < in_nseg) || in_segrep[g_q] == g_busy_krep[g_q - in_nseg0]);
-  ENS(frame_repfnz, g_is_busy_krep[g_x] == 1 || in_repfnz[g_c*in_m + g_x] == g_repfnz0[g_c*in_m + g_x]);
-  ENS(frame_markers_without_busy, in_bcol < in_jcol || (in_spa_marker[g_c*in_m + g_x] == g_mark0 && in_panel_lsub[g_c*in_m + g_x] == g_plsub0 && in_w_lsub_end[g_c] == g_wend0[g_c]));
-  /* the marker / list pair stays consistent; lists only grow, by rows that now carry the marker */
-  ENS(markers_consistent, in_w_lsub_end[g_c] == cnt_marked(g_c) && in_w_lsub_end[g_c] >= g_wend0[g_c]);
-  ENS(marker_only_set, in_spa_marker[g_c*in_m + g_x] == g_mark0 || in_spa_marker[g_c*in_m + g_x] == in_jcol + g_c);
-  ENS(list_prefix_kept, g_x >= g_wend0[g_c] || in_panel_lsub[g_c*in_m + g_x] == g_plsub0);
-  ENS(list_new_entries_marked, !(g_wend0[g_c] <= g_x && g_x < in_w_lsub_end[g_c]) || (0 <= in_panel_lsub[g_c*in_m + g_x] && in_panel_lsub[g_c*in_m + g_x] < in_m && in_spa_marker[g_c*in_m + in_panel_lsub[g_c*in_m + g_x]] == in_jcol + g_c));
   __CPROVER_assert(0, "canary: panel_bmod returns");
-#if SEGCAN
-  if (in_nseg0 == 0) __CPROVER_assert(0, "canary: no segment");
+  if (in_nseg0 == 0 && nb == 0) __CPROVER_assert(0, "canary: no segment, no busy supernode");
   if (g_k.calls1d >= 1 && g_k.calls2d >= 1) __CPROVER_assert(0, "canary: both kernels used in one panel");
-  if (g_k.calls >= 3) __CPROVER_assert(0, "canary: three segments");
-  if (g_k.kind_s == 1 && g_s < in_nseg0 && NSUPC(g_s) >= in_colblk) __CPROVER_assert(0, "canary: 1-D although enough columns (too few rows below)");
-  if (g_k.kind_s == 2 && g_s < in_nseg0 && NSUPC(g_s) == in_colblk && NROW(g_s) == in_rowblk) __CPROVER_assert(0, "canary: 2-D exactly at both thresholds");
-  if (in_nseg0 >= 1 && in_xlusup[KF(0)] + NSUPR(0)*NSUPC(0) == in_Glu.nzlumax && in_Glu.nzlumax == LUC && in_xlsub_end[KF(0)] == LC) __CPROVER_assert(0, "canary: supernode block ends exactly at nzlumax, list at nzlmax");
-#endif
-#if BUSYCAN
+  if (in_nseg0 >= 3) __CPROVER_assert(0, "canary: three segments");
+  if (g_k.kind_s == 1 && g_s < in_nseg0 && g_sd_krep - g_sd_kf + 1 >= in_colblk) __CPROVER_assert(0, "canary: 1-D although enough columns (too few rows below)");
+  if (g_k.kind_s == 2 && g_s < in_nseg0 && g_sd_krep - g_sd_kf + 1 == in_colblk && g_sd_nsupr - (g_sd_krep - g_sd_kf + 1) == in_rowblk) __CPROVER_assert(0, "canary: 2-D exactly at both thresholds");
+  if (g_s < in_nseg0 && in_xlusup[g_sd_kf] + g_sd_nsupr*(g_sd_krep - g_sd_kf + 1) == in_Glu.nzlumax && in_Glu.nzlumax == LUC && in_xlsub_end[g_sd_kf] == LC) __CPROVER_assert(0, "canary: supernode block ends exactly at nzlumax, list at nzlmax");
   if (nb >= 2) __CPROVER_assert(0, "canary: two busy supernodes on the path");
   if (g_k.awaits >= 2) __CPROVER_assert(0, "canary: waited twice");
   if (nb >= 1 && g_k.awaits == 0) __CPROVER_assert(0, "canary: busy range already finished, no wait");
   if (nb >= 1 && g_busy_krep[0] > in_bcol) __CPROVER_assert(0, "canary: busy supernode with several columns");
-  if (nb >= 1 && in_repfnz[g_busy_krep[0]] != g_repfnz0[g_busy_krep[0]]) __CPROVER_assert(0, "canary: leading nonzero of a busy segment found");
-  if (nb >= 1 && in_w_lsub_end[0] > g_wend0[0]) __CPROVER_assert(0, "canary: new fill rows appended to panel_lsub");
+  if (nb >= 1 && g_is_busy_krep[g_x] == 1 && RF(g_c, g_x) != g_rep0) __CPROVER_assert(0, "canary: leading nonzero of a busy segment found");
+  if (nb >= 1 && in_w_lsub_end[g_c] > g_wend0) __CPROVER_assert(0, "canary: new fill rows appended to panel_lsub");
   if (nb >= 1 && in_nseg0 >= 1) __CPROVER_assert(0, "canary: finished and busy supernodes in one call");
   if (nb >= 1 && g_k.calls2d >= 1 && in_nseg0 == 0) __CPROVER_assert(0, "canary: 2-D kernel for a busy supernode");
-#endif
+  if (in_w == W && in_m == M) __CPROVER_assert(0, "canary: full capacity m = M, w = W");
 }
